@@ -8,7 +8,7 @@ Theorems about `B6.Model.WireExpr` (model of `Expression.ToProto` / `ExpressionF
 `supported` is the executable predicate (the driver runs the same function) that says which expression
 trees the round trip is claimed for: every constructor except the ones `ExpressionFromProto` /
 `NewQueryFromProto` have no (working) case for — the nil literal (comes back as an `Expression` with a nil
-`AnyExpression`), GeoJSON (`panic("Unimplemented")`), feature literals (error), the queries `Empty`,
+`AnyExpression`), GeoJSON and feature literals (error), the queries `Empty`,
 `IsValid`, `IntersectsCells`, `MightIntersect` (error) — tag / tagged values that are not strings (only
 their `String()` travels), collection literals holding a query (`FromLiteral` has no case), and positions
 outside `int32`.  None of the excluded shapes can be produced by the Python client (it sends calls,
